@@ -16,6 +16,15 @@ var commonAssumptions = []string{
 	"a solver answer other than sat/unsat, an (error line, an unsupported construct or an unwinding limit makes the check INCONCLUSIVE (exit 2), never a pass",
 }
 
+// generatedFor returns the generated tables (configuration numbers >= 1000) a
+// tier runs: a seeded sample in quick, the whole grammar in thorough.
+func generatedFor(tier string, seed int, quickN int, keep func(genInfo) bool) []genInfo {
+	if tier == "thorough" {
+		return genSample(seed, 1<<30, keep)
+	}
+	return genSample(seed, quickN, keep)
+}
+
 func routingItems(harness string, stages func(tbl int) []int) func(tier string, seed int) []item {
 	return func(tier string, seed int) []item {
 		var out []item
@@ -27,6 +36,14 @@ func routingItems(harness string, stages func(tbl int) []int) func(tier string, 
 				for _, st := range stages(tbl) {
 					out = append(out, item{Harness: harness, Cfg: []int{tbl, router, st}})
 				}
+			}
+		}
+		for _, g := range generatedFor(tier, seed, 24, func(g genInfo) bool { return true }) {
+			for router := 0; router < 2; router++ {
+				if router == 1 && g.curly {
+					continue
+				}
+				out = append(out, item{Harness: harness, Cfg: []int{g.idx, router, 0}, Label: "generated table (pair of templates from the grammar on service /t)"})
 			}
 		}
 		return out
@@ -92,6 +109,14 @@ func properties() map[string]*propDef {
 					out = append(out, item{Harness: "H_C14", Cfg: []int{tbl, router, 0}})
 				}
 			}
+			for _, g := range generatedFor(tier, seed, 24, func(g genInfo) bool { return true }) {
+				for router := 0; router < 2; router++ {
+					if router == 1 && (g.curly || g.tail) {
+						continue
+					}
+					out = append(out, item{Harness: "H_C14", Cfg: []int{g.idx, router, 0}, Label: "generated table"})
+				}
+			}
 			return out
 		},
 		Bounds:         map[string]interface{}{"path_bytes": 11, "segments": 3, "method_bytes": 7, "tables": nCoreTables},
@@ -108,6 +133,9 @@ func properties() map[string]*propDef {
 				if hasMedia(tbl) {
 					out = append(out, item{Harness: "H_C18", Cfg: []int{tbl, 1}})
 				}
+			}
+			for _, g := range generatedFor(tier, seed, 24, func(g genInfo) bool { return g.plain }) {
+				out = append(out, item{Harness: "H_C18", Cfg: []int{g.idx, 0}, Label: "generated table of the common fragment"})
 			}
 			return out
 		},
@@ -138,6 +166,14 @@ func properties() map[string]*propDef {
 					for _, p := range perms {
 						out = append(out, item{Harness: "H_C03", Cfg: []int{tbl, router, p}})
 					}
+				}
+			}
+			for _, g := range generatedFor(tier, seed, 24, func(g genInfo) bool { return !g.single }) {
+				for router := 0; router < 2; router++ {
+					if router == 1 && g.curly {
+						continue
+					}
+					out = append(out, item{Harness: "H_C03", Cfg: []int{g.idx, router, 1}, Label: "generated table, routes registered in reverse order"})
 				}
 			}
 			return out
